@@ -227,12 +227,27 @@ func paramsFor(term *Sexp, norm []byte, curs []int) *Sexp {
 	return params
 }
 
+var c08Decoy = []byte("\"\\tq\" \"a long plain prefix then \\n an escape\" \"\u00e9\" `raw` 12 -0x1F 017 1.5e3 .5 'x' '\\n' true false nil 1h2m3s foo + abc \"unterminated")
+
 func c08Exec(c *Sexp) Outcome {
 	files, target := caseFiles(c)
 	ctx, tf := newCtx(files, target)
 	term := findArg(c, "term")[0]
 	pos := findArg(c, "pos")[0].Int()
 	g := buildGrammar(nil, term, newRecorder(0), false, nil, c08UserRegexps)
+	// the parser VALUE has been used before, on another reader, for other literals of several lengths (a terminal that
+	// keeps a buffer, a compiled pattern or a position of an earlier call in its value shows on the real application)
+	func() {
+		dctx, dtf := newCtx([]fileSpec{{"decoy", c08Decoy}}, 0)
+		for i := 0; i < len(c08Decoy); i++ {
+			if i == 0 || c08Decoy[i-1] == ' ' {
+				func() {
+					defer func() { recover() }()
+					g.root.Parse(dctx, data.EmptyIntMap, dtf.Pos(i))
+				}()
+			}
+		}
+	}()
 	off := int(tf.Pos(0))
 	norm := bytes.ReplaceAll(files[target].raw, []byte("\r\n"), []byte("\n"))
 	end := off + len(norm)
